@@ -380,7 +380,7 @@ impl RemoteClient {
     }
 //@ loop 1
         invariant
-            data == futs_buffered_enumerated.items(), off == offset_into_first_range as int, total == total_len as int,
+            /*@C17*/ data == futs_buffered_enumerated.items(), off == offset_into_first_range as int, total == total_len as int,
             plan_ok(data, off, total), off + total <= u64::MAX,
             i == futs_buffered_enumerated.pos(), 0 <= i <= data.len(),
             remaining_len == plan_rem(data, off, total, i),
